@@ -47,6 +47,10 @@ CHECKS = {
    text="epoch_df and compute_features_2d(axis=None) run for real on an arbitrary C01-conforming flattened table (sample columns z3 integers, feature cells z3 reals/NaN, epoch_len an unbounded z3 integer); every cycle is proved to land in exactly one epoch (the one containing its closing extremum), in order, with unchanged features and shifted samples; labels equal the flattened labels for a single option set and the per-epoch rule for a list (real detect_bursts_* run).",
    note="Trusted: models (witness-validated); compute_features cut to a recorder whose labels follow the rule for the first option set; boundary coincidences accepted on either half-open convention. Bound: 1..3 epochs, 0..3 cycles (quick) / 0..5 (thorough).",
    ref="4 C13"),
+ 'C19': dict(
+   text="(A) check_kwargs_shape runs on array stand-ins whose extents are unbounded z3 integers: ValueError <=> undocumented (ndim, axis, option-shape) combination, for all extents at once; (B) the group entry points on small arrays with compute_features cut: invalid combinations raise ValueError before any signal is analysed, valid ones are accepted; (C) each documented range parameter is one z3 real/integer at each public entry point: outside its range => ValueError and no table, inside => accepted; (D) enumerated options incl. unknown string / None / int, dimensionality guards, plot-before-fit.",
+   note="Trusted: models (witness-validated); neurodsp stubs reject fs <= 0 like the real library; cut of the cyclepoint search where only the exception behaviour matters. The decision table of documented option-list shapes is written out in evidence.assumptions.",
+   ref="4 C19"),
  'C14': dict(
    text="One inductive step instead of history enumeration: from symbolic settings (threshold values, min_n_cycles, reductions as z3 variables) the constructor is proved to store exactly its arguments with shorthand names expanded; fit is proved to call compute_features with exactly the stored settings, to store its result and to leave the option dictionaries value-equal; recompute_edges(r) is proved to hand over every *_threshold lowered by r without touching the stored thresholds; group models are proved to mirror df_features / sigs by position. Real-pipeline runs compare Bycycle.fit with compute_features and four explicit histories (fit/edit/refit, fit/recompute/refit, load/fit, fit A/fit B) with a fresh object on the same path.",
    note="Trusted: models (witness-validated); stubs (same input -> same output); cyclepoint search cut to an arbitrary C01-conforming table in the real-pipeline steps. Histories longer than 3 steps are covered only through the invariant argument. Bounds in evidence.bounds.",
